@@ -181,7 +181,7 @@ class ScenarioRunner:
         if not src or not src.startswith(root + os.sep):
             return
         rel = src[len(root) + 1:].split(os.sep)
-        if rel[0] != "objects" or len(rel) < 2 or rel[1] == "tmp" or rel[-1].endswith("_delete"):
+        if rel[0] != "objects" or len(rel) < 2 or probe.staging_name(rel[1]) or rel[-1].endswith("_delete"):
             return
         cid = "".join(rel[1:])
         if self.layout.obj_rel(cid) != "/".join(rel):
